@@ -644,6 +644,97 @@ def run_rdv(ctx):
     ctx.correspond(exe, lines, kinds, label="client-rendezvous", prop=prop_rdv, key_of=key_rdv, impl_args=DRV_ARGS, crosscheck=12)
 
 
+# ------------------------------------------------------------------ broker: AMP endpoint vs POST endpoint
+
+BRIDGE_FP = "2B280B23E1107BB62ABFC40DDCC8824814F80A72"
+
+
+def rand_poll(rng):
+    """a client poll message (never '{'-leading: that is the legacy format the AMP endpoint does not take)"""
+    mode = rng.randrange(10)
+    nat = rng.choice(["unknown", "restricted", "unrestricted", "", "bogus"])
+    offer = "".join(rng.choice("abcv=0 \\n/+-_") for _ in range(rng.choice([0, 1, 10, 200, 3000])))
+    offer = offer.replace("\\n", "\\\\n")
+    if mode <= 4:
+        fp = rng.choice(["", "", BRIDGE_FP, BRIDGE_FP.lower()])
+        return ('1.0\n{"offer":"%s","nat":"%s","fingerprint":"%s"}' % (offer, nat, fp)).encode()
+    if mode == 5:  # unknown bridge / bad fingerprint
+        fp = rng.choice(["00" * 20, "zz", "2B28", BRIDGE_FP[:-2] + "73"])
+        return ('1.0\n{"offer":"%s","nat":"%s","fingerprint":"%s"}' % (offer, nat, fp)).encode()
+    if mode == 6:
+        return rng.choice([b"", b"1.0", b"1.0\n", b"2.0\n{}", b"1.0\n{}", b"1.0\nnot json", b"\n", b"x", b"1.0\n{\"offer\":\"\"}", b" {", b"1.0\n[1]"])
+    if mode == 7:
+        return bytes(rng.choice([0, 10, 13, 0x7b, 0xff, 0x31, rng.randrange(256)]) for _ in range(rng.randrange(1, 40))).lstrip(b"{") or b"x"
+    return ('1.0\n{"offer":"%s","nat":"%s"}' % (offer, nat)).encode()
+
+
+def gen_broker(ctx):
+    rng = ctx.rng
+    cases = []
+    n = 250 if ctx.tier == "quick" else 2500
+    for _ in range(n):
+        scen = rng.choice(["noproxy", "proxy", "proxy"])
+        answer = ('{"type":"answer","sdp":"%d"}' % rng.randrange(10**6)).encode()
+        body = rand_poll(rng)
+        r = rng.random()
+        if r < 0.7:
+            path = b"/amp/client/0" + rand_pad(rng) + b"/" + b64u(body)
+            kind = "broker-twin-wellformed"
+        elif r < 0.9:
+            path = b"/amp/client/" + rng.choice([b"", b"0", b"1AAAA/" + b64u(body), b"0AAAA", b"0AAAA/" + b64u(body) + b"=", b"0AAAA/!" + b64u(body),
+                                                 b"0AAAA/A", b"/0/" + b64u(body), b"00", b"0/" + b64u(body)[:-1] if len(b64u(body)) % 4 == 2 else b"0/A"])
+            kind = "broker-twin-malformed-path"
+        else:
+            path = rng.choice([b"/amp/client", b"/amp/clien/0A/QQ", b"/client", b"", b"/amp/client0/QQ"])
+            kind = "broker-twin-wrong-route"
+        cases.append((scen, answer, body, path, kind))
+    return cases
+
+
+def prop_broker(line, impl, model):
+    a = line.split(" ")
+    if impl.startswith("!panic") or impl == "!died":
+        return "implementation panicked/died: " + impl[:200]
+    if impl.startswith("!"):
+        return None
+    body, path, pst, pbody, errresp = unhex(a[4]), unhex(a[5]), a[6], a[7], a[8]
+    if not path.startswith(b"/amp/client/"):
+        return None if impl.startswith("amp=500") else "a path outside /amp/client/ was served: " + impl[:80]
+    dec = py_decode_path(path[len(b"/amp/client/"):])
+    if dec is None:
+        return None if impl == "amp=" + errresp else "undecodable path not answered with the armored decode-error response: " + impl[:120]
+    if dec != body:
+        return None
+    want = "amp=200," + pbody if pst == "200" else "amp=500,x"
+    if impl != want:
+        return "AMP endpoint answered %s, the POST endpoint %s %s for the same poll" % (impl[:100], pst, pbody[:100])
+    return None
+
+
+def run_broker(ctx):
+    import os
+    exe = vlib.go_test_build("./broker", name="broker_c11.test")
+    os.environ["VERIF_DRIVER"] = "c11"
+    ctx.trusted.append("twin broker contexts with scripted proxies in harness/overlay/broker/zz_verif_c11_test.go "
+                       "(AddSnowflake + an answering goroutine) stand for two brokers in the same state")
+    cases = gen_broker(ctx)
+    q = ["%s brokerpost %s %s %s" % (AREA, s, hx(an), hx(b)) for s, an, b, _, _ in cases] + [AREA + " brokererr"]
+    rc, ra, err = vlib.run_impl(exe, q, args=DRV_ARGS)
+    if rc != 0 or len(ra) != len(q):
+        ctx.not_shown("broker: POST phase failed: " + err[-300:])
+        return
+    errresp = ra[-1]
+    if not errresp.startswith("200,x"):
+        ctx.not_shown("broker: reference response for an undecodable AMP path is not a 200 with armor: " + errresp[:100])
+        return
+    lines, kinds = [], []
+    for (s, an, b, path, k), r in zip(cases, ra):
+        st, pb = r.split(" ")
+        lines.append("%s broker %s %s %s %s %s %s %s" % (AREA, s, hx(an), hx(b), hx(path), st, pb, errresp))
+        kinds.append(k)
+    ctx.correspond(exe, lines, kinds, label="broker-amp-vs-post", prop=prop_broker, key_of=lambda *a: "amp-vs-post", impl_args=DRV_ARGS, crosscheck=10)
+
+
 def run(ctx):
     ctx.assumptions += ["models = coq/Model/{B64Url,AmpPath}.v (hand written); tie = correspondence on generated cases"]
     ctx.assumptions += ["idna.ToUnicode / idna.ToASCII / sha256 / url.Parse are library boundaries: their outputs are supplied per case by the Go driver "
@@ -651,20 +742,29 @@ def run(ctx):
     run_path(ctx)
     run_cache(ctx)
     run_rdv(ctx)
+    run_broker(ctx)
 
 
 def replay(ctx, doc):
-    exe = vlib.go_build("./zz_verif/amppath")
+    import os
+    os.environ["VERIF_DRIVER"] = "c11"
     bad = 0
     for v in doc.get("violations", []):
         case = v["replay"].get("case")
         if not case:
             continue
-        m = vlib.run_model([case])[0]
-        rc, r, err = vlib.run_impl(exe, [case])
-        r = r[0] if r else "!died"
         op = case.split(" ")[1]
-        p = (prop_cache if op.startswith("cacheurl") else prop_lib if op in LIB_OPS else prop)(case, r, m)
+        if op in ("http", "amp"):
+            exe, args, pr = vlib.go_test_build("./client/lib", name="client_lib_c11.test"), DRV_ARGS, prop_rdv
+        elif op == "broker":
+            exe, args, pr = vlib.go_test_build("./broker", name="broker_c11.test"), DRV_ARGS, prop_broker
+        else:
+            exe, args = vlib.go_build("./zz_verif/amppath"), ()
+            pr = prop_cache if op.startswith("cacheurl") else prop_lib if op in LIB_OPS else prop
+        m = vlib.run_model([case])[0]
+        rc, r, err = vlib.run_impl(exe, [case], args=args)
+        r = r[0] if r else "!died"
+        p = pr(case, r, m)
         print("case: %s\n model: %s\n impl:  %s\n property: %s" % (case[:300], m[:300], r[:300], p or "holds"))
         bad += 1 if p else 0
     return 1 if bad else 0
